@@ -2,7 +2,7 @@
    proofs in Proofs/LieExp.v.  [eps] is the dtype's machine epsilon (any 0 <= eps <= 2^-10). *)
 From Coq Require Import Reals List Lra.
 From Coquelicot Require Import Coquelicot.
-From PV Require Import Base.Num Model.LieGroup Model.LieExp Proofs.LieGroup Proofs.LieExp Proofs.ExpODE.
+From PV Require Import Base.Num Model.LieGroup Model.LieExp Proofs.LieGroup Proofs.LieExp Proofs.ExpODE Proofs.ExpODE2.
 Local Open Scope R_scope.
 #[local] Remove Hints NumQ NumZ : typeclass_instances.
 
@@ -35,5 +35,21 @@ Proof.
   pose proof (vnorm_nonneg x). lra.
 Qed.
 
+(* se3: the 4x4 matrix [[E, p],[0,1]] is the matrix exponential of the generator [[ [phi]x, tau],[0,0]] iff
+   E' = [phi]x E, E(0) = I and p' = [phi]x p + tau, p(0) = 0 (block form of Y' = G Y, Y(0) = I).
+   Existence and uniqueness: the only such pair is (rodrigues phi, V1 phi tau) ... *)
+Theorem C01_se3_exponential_unique : forall (tau phi : vec3R) (E : @mat3 R) (p : vec3R), vnorm phi <> 0 ->
+  (is_mexp_se3 tau phi E p <-> E = rodrigues phi /\ p = mvmul (V1 phi) tau).
+Proof. exact se3_exponential. Qed.
+(* ... and on the closed-form branch that is exactly the matrix the library builds from the modelled se3 Exp *)
+Theorem C01_se3_exp_is_matrix_exponential : forall (eps : R) (tau phi : vec3R), 0 <= eps -> eps < vnorm phi ->
+  matrix4 SE3_act4 (se3_exp eps (tau, phi)) = block4 (rodrigues phi) (mvmul (V1 phi) tau) /\
+  is_mexp_se3 tau phi (rodrigues phi) (mvmul (V1 phi) tau).
+Proof.
+  intros eps tau phi He H. split; [now apply se3_exp_matrix|].
+  apply se3_exponential; [pose proof (vnorm_nonneg phi); lra | split; reflexivity].
+Qed.
+
+Print Assumptions C01_se3_exponential_unique. Print Assumptions C01_se3_exp_is_matrix_exponential.
 Print Assumptions C01_so3_exp_unit_closed_form. Print Assumptions C01_so3_exp_unit_taylor.
 Print Assumptions C01_so3_matrix_is_rodrigues. Print Assumptions C01_rodrigues_is_the_matrix_exponential. Print Assumptions C01_so3_exp_is_matrix_exponential.
